@@ -9,7 +9,7 @@
    Proofs/WritersDict.v: wf_db (keys, field names, roles unique up to case; every role has a person -- what the API
    builds), map_ids.  Proofs/WritersTree.v: parts_ok p := reparse_person p = Ok p, yaml_ok, xml_ok. *)
 From Pybtex Require Import Base.Prelude Base.PyChar Base.PyStr Model.BibtexStr Model.Names Model.Scanner Model.BibParser Model.Writers
-  Proofs.Writers Proofs.WritersDict Proofs.WritersTree Proofs.WritersQuote Proofs.WritersPerson Proofs.WritersChain Proofs.WritersField Proofs.WritersName Proofs.WritersBib Proofs.WritersNameList Proofs.WritersBibP Proofs.WritersTokens Proofs.WritersName0.
+  Proofs.Writers Proofs.WritersDict Proofs.WritersTree Proofs.WritersQuote Proofs.WritersPerson Proofs.WritersChain Proofs.WritersField Proofs.WritersName Proofs.WritersBib Proofs.WritersNameList Proofs.WritersBibP Proofs.WritersTokens Proofs.WritersName0 Proofs.WritersBool Proofs.WritersNameG.
 
 (* ---- identifier lower-casing changes nothing but the letter case of keys, entry types, field names, roles *)
 Theorem lower_only_case : forall d, wf_db d -> lower_db d = Ok (map_ids lower d).
@@ -256,8 +256,10 @@ Proof.
 Qed.
 
 (* ---- FILE LEVEL WITH PERSONS: [bibp_ok enc d] (Proofs/WritersBibP.v) is bib_ok with persons allowed: every role
-   (author / editor in any letter case, a NAME) has at least one person; every person is [name_ok]: [expressible]
-   (plain comma-free tokens, exactly one first-name token, a last name, von part empty or ending with a von token, no
+   (author / editor in any letter case, a NAME) has at least one person; every person is [name_okx]
+   (Proofs/WritersNameList.v: its formatted text is a list of words none of which is "and", and the name parser reads it
+   back), of which [name_ok] and the no-first-name form are instances (name_ok_instance, name_nofirst_instance below);
+   [name_ok] = [expressible] (plain comma-free tokens, exactly one first-name token, a last name, von part empty or ending with a von token, no
    last-name token but the final one a von token) and no token is the word "and" in any letter case; the
    " and "-joined text of the formatted names is brace-balanced, whitespace-normalised and left alone by the encoder.
    The writer writes a role as one more field; the reader cuts it with split_name_list (re.split on ' and ', proved
@@ -276,21 +278,30 @@ Theorem name_comma_refuted : exists rd, write_read latex_enc FBib (person_db com
 Proof. exact name_comma_refuted_pf. Qed.
 Print Assumptions name_comma_refuted.
 
-(* ---- chains of any formats over the domain with persons (tree_ok /\ bibp_ok), preserve_case on.
-   Partial: preserve_case = False over this domain is not proved (it is for the person-free domain: chain_roundtrip_partial) *)
-Theorem chain_roundtrip_persons_partial : forall enc fs d, allp_ok enc d -> chain enc fs true d = Ok (expect fs true d).
-Proof. exact chain_roundtrip_persons_pf. Qed.
+(* ---- chains of any formats (any length) over the domain with persons (tree_ok /\ bibp_ok), with or without
+   identifier lower-casing (lower-casing keeps this domain too: roles stay roles, NAMEs stay NAMEs). *)
+Theorem chain_roundtrip_persons_partial : forall enc fs pc d, allp_ok enc d -> chain enc fs pc d = Ok (expect fs pc d).
+Proof. exact chain_roundtrip_persons_pc_pf. Qed.
 Print Assumptions chain_roundtrip_persons_partial.
+
+(* the two syntactic instances of the name domain of the file-level theorem *)
+Theorem name_ok_instance : forall p, name_ok p -> name_okx p.
+Proof. exact name_ok_x. Qed.
+Print Assumptions name_ok_instance.
+Theorem name_nofirst_instance : forall p, expressible0 p -> Forall noand_tok (p_prelast p ++ p_last p) -> name_okx p.
+Proof. exact name_ok0_x. Qed.
+Print Assumptions name_nofirst_instance.
 
 Example ex_bibp_ok : bibp_ok latex_enc ex_db /\ wd_entries ex_db <> [] /\
   write_read latex_enc FBib ex_db = Ok (norm_preamble ex_db) /\ we_persons (hd (mkWE [] [] [] []) (wd_entries ex_db)) <> [].
 Proof.
   split; [|split; [discriminate|split; [vm_compute; reflexivity|discriminate]]].
-  unfold bibp_ok, bibp_ok_entry, wf_entry, role_ok, name_ok, expressible, wok_field, bib_ok_field, role_fields.
+  unfold bibp_ok, bibp_ok_entry, wf_entry, role_ok, wok_field, bib_ok_field, role_fields.
   repeat match goal with
          | |- _ /\ _ => split
          | |- Forall _ _ => constructor
          | |- NoDup _ => constructor
+         | |- name_okx _ => apply name_ok_x; unfold name_ok, expressible
          end;
     try solve [vm_compute; reflexivity]; try discriminate; try solve [eexists; reflexivity];
     try solve [right; vm_compute; reflexivity]; try solve [left; reflexivity];
@@ -342,4 +353,75 @@ Proof.
     split; [repeat (constructor; [apply T; [discriminate|vm_compute; reflexivity]|]); constructor|].
     right. split; [vm_compute; reflexivity|]. split; [vm_compute; reflexivity|]. split; [discriminate|]. split; [discriminate|].
     cbn [removelast]. constructor; [vm_compute; reflexivity|constructor].
+Qed.
+
+(* plain-token names (both forms) also satisfy the hypothesis parts_ok of the YAML / BibTeXML glue theorems, so for such
+   persons the common chain domain allp_ok reduces to conditions on identifiers and values *)
+Theorem expressible_parts_ok : forall p, expressible p -> parts_ok p.
+Proof. exact Proofs.WritersName0.expressible_parts_ok. Qed.
+Print Assumptions expressible_parts_ok.
+Theorem expressible0_parts_ok : forall p, expressible0 p -> parts_ok p.
+Proof. exact Proofs.WritersName0.expressible0_parts_ok. Qed.
+Print Assumptions expressible0_parts_ok.
+
+(* non-vacuity of the widened file-level domain: authors without a first name, a chain with lower-casing *)
+Definition ex_db_nofirst : wdb :=
+  mkWDb [mkWE (s2l "Key1") (s2l "Book") [(s2l "Title", s2l "T")]
+              [(s2l "Author", [mkPerson [] [] [s2l "van"; s2l "der"] [s2l "Waals"; s2l "Jansen"] []; mkPerson [] [] [] [s2l "Knuth"] []; ex_person])]] [].
+Example ex_nofirst_roundtrip :
+  write_read latex_enc FBib ex_db_nofirst = Ok ex_db_nofirst /\
+  chain latex_enc [FBib; FYaml; FBib; FXml] false ex_db_nofirst = Ok (map_ids lower ex_db_nofirst).
+Proof. split; vm_compute; reflexivity. Qed.
+
+(* ---- a BOOLEAN, computable well-formedness predicate for the file-level round trip with latexcodec's encoder
+   (Proofs/WritersBool.v [bibp_okb]: unique keys / field names / roles up to case; entry types, keys, field names the
+   reader's patterns accept; every field value, every joined name list and the preamble text brace-balanced,
+   fixed by normalize_whitespace and fixed by the encoder -- all three by evaluation; every person in one of the two
+   proved name shapes with no token "and") and its soundness: whenever the predicate EVALUATES to true the round trip
+   is the identity.  [allp_okb] adds "no field called type" and gives every chain of formats. *)
+Theorem bibtex_roundtrip_checked : forall d, bibp_okb d = true -> write_read latex_enc FBib d = Ok (norm_preamble d).
+Proof. exact bibtex_roundtrip_bool_pf. Qed.
+Print Assumptions bibtex_roundtrip_checked.
+
+Theorem chain_roundtrip_checked : forall fs pc d, allp_okb d = true -> chain latex_enc fs pc d = Ok (expect fs pc d).
+Proof. exact chain_roundtrip_bool_pf. Qed.
+Print Assumptions chain_roundtrip_checked.
+
+(* the predicate is satisfiable by non-trivial databases, and rejects the known counter-examples *)
+Example ex_checked : bibp_okb ex_db = true /\ allp_okb ex_db_nofirst = true /\ allp_okb ex_db_bib = true /\
+  bibp_okb (one_field_db (s2l "100%")) = false /\ bibp_okb (person_db and_person) = false /\
+  bibp_okb (person_db comma_person) = false /\ bibp_okb (one_field_db (s2l "a  b")) = false /\ allp_okb (field_db k_type (s2l "T")) = false.
+Proof. repeat split; vm_compute; reflexivity. Qed.
+
+(* ---- bibtex_name_roundtrip for GENERAL tokens (comma forms): [expressibleG] (Proofs/WritersNameG.v) is [expressible]
+   with tokens that are any non-empty string with every brace closed, no leading / trailing whitespace, no separator
+   at brace level 0 (whitespace, unescaped tie, backslash before a space; cf. person_parts_roundtrip) and no comma at
+   brace level 0 ([gtok]; computable form [gtokb]): braced groups ("{Barnes and Noble, Inc.}"), special characters
+   ({\"O}zt{\"u}rk), commas and "and" inside braces are all allowed.  Through the C04 builder's comma_split_spec and
+   tokenizer_spec_all.  Still partial: exactly one first-name token (the no-first-name form is proved for plain tokens
+   only: bibtex_name_roundtrip_nofirst_partial); at FILE level names must be lists of words (no spaces inside tokens),
+   so braced tokens with spaces are not covered by bibtex_roundtrip_persons_partial. *)
+Theorem bibtex_name_roundtrip_general_partial : forall p, expressibleG p -> person_of_string (format_name p) = Ok (p, false).
+Proof. exact bibtex_name_roundtripG_pf. Qed.
+Print Assumptions bibtex_name_roundtrip_general_partial.
+
+Example ex_expressibleG : expressibleG braced_name /\
+  format_name braced_name = s2l "de {\'e}a {\""O}zt{\""u}rk {Barnes and Noble, Inc.}, Jr., A. {B C}".
+Proof. split; [exact braced_name_ok|vm_compute; reflexivity]. Qed.
+
+(* ---- ... and the no-first-name form ("von Last") with general tokens: [expressible0G] = [expressible0] with [gtok]
+   tokens.  Together with bibtex_name_roundtrip_general_partial: every person that has a BibTeX spelling without a
+   trailing comma, except those with a lineage part and no first name (no such spelling), round-trips through
+   _format_name / Person(string) whenever its tokens are gtok and the von / non-von pattern is the stated one. *)
+Theorem bibtex_name_roundtrip_nofirst_general_partial : forall p, expressible0G p -> person_of_string (format_name p) = Ok (p, false).
+Proof. exact bibtex_name_roundtrip0G_pf. Qed.
+Print Assumptions bibtex_name_roundtrip_nofirst_general_partial.
+
+Example ex_expressible0G : expressible0G (mkPerson [] [] [] [s2l "{Barnes and Noble, Inc.}"] []) /\
+  person_of_string (s2l "{Barnes and Noble, Inc.}") = Ok (mkPerson [] [] [] [s2l "{Barnes and Noble, Inc.}"] [], false).
+Proof.
+  split; [|vm_compute; reflexivity]. unfold expressible0G. cbn [p_first p_middle p_lineage p_prelast p_last].
+  repeat split; try constructor; try constructor; try (apply gtokb_ok; vm_compute; reflexivity).
+  - reflexivity.
+  - eexists; eexists; split; [reflexivity|vm_compute; reflexivity].
 Qed.
